@@ -130,6 +130,8 @@ def install_means(i):
 @model("numpy.ndarray.mean", "mean(): sum of all elements / count; mean(axis=1)[e] = row sum / n_cols  (reals; count must be >= 1)")
 def _mean(i, args, kw, node, fr):
     a = args[0]
+    if isinstance(a, SymList) and a.elem_wrap is None and not isinstance(a.seq.cols, tuple) and a.seq.cols.sort().range() == Real:
+        a = Arr((a.seq.length,), a.seq.cols, "float")  # np.mean of a list of floats
     check_live(a, node)
     axis = kw.get("axis", args[1] if len(args) > 1 else None)
     if a.elem_sort != Real:
@@ -171,3 +173,46 @@ def var_cong(v, w, n):
     e = z3.Int("e!vc")
     return z3.Implies(z3.And(n >= 1, z3.ForAll([e], z3.Implies(z3.And(e >= 0, e < n), z3.Select(v, e) == z3.Select(w, e)))),
                       var1(v, n) == var1(w, n))
+
+
+# ------------------------------------------------------------------ square root and the legacy global draws (reals)
+sqrt_r = z3.Function("sqrt_r", Real, Real)
+
+
+def sqrt_axioms():
+    x, y = z3.Reals("x!sq y!sq")
+    return [z3.ForAll([x], z3.Implies(x >= 0, z3.And(sqrt_r(x) >= 0, z3.Implies(x >= 1, sqrt_r(x) >= 1), z3.Implies(x > 0, sqrt_r(x) > 0))), patterns=[sqrt_r(x)])]
+
+
+@model("numpy.sqrt", "sqrt over the reals: an uninterpreted function with sqrt(x) >= 0 for x >= 0, >= 1 for x >= 1, > 0 for x > 0 (only these facts are used)")
+def _sqrt(i, args, kw, node, fr):
+    (a,) = args
+    if isinstance(a, Arr):
+        raise Unsupported("np.sqrt of an array", node)
+    if not i.ctx.ghost.get("_sqrt_axioms"):
+        i.ctx.ghost["_sqrt_axioms"] = True
+        for f in sqrt_axioms():
+            i.ctx.assume(f)
+    x = to_z3(a, Real) if not is_z3(a) else (z3.ToReal(a) if a.sort() == Int else a)
+    i.safe("sqrt_of_negative", x >= 0, node)
+    return sqrt_r(x)
+
+
+def _legacy_draw(kind):
+    def f(i, args, kw, node, fr):
+        """a draw from numpy's GLOBAL legacy generator: an arbitrary value of the distribution's support; the arguments are logged
+        (ghost 'legacy_draws') so that contracts can state what the draw was parameterised with"""
+        a = [x for x in args]
+        if any(isinstance(x, Arr) for x in a) or kw:
+            raise Unsupported("vector-valued np.random.%s" % kind, node)
+        r = i.ctx.fresh("draw_" + kind, Real)
+        if kind == "gamma":
+            i.ctx.assume(r >= 0)
+        i.ctx.ghost.setdefault("legacy_draws", []).append((kind, tuple(to_z3(x, Real) if not is_z3(x) else (z3.ToReal(x) if x.sort() == Int else x) for x in a), r))
+        return r
+    return f
+
+
+FUNCS["numpy.random.gamma"] = _legacy_draw("gamma")
+FUNCS["numpy.random.normal"] = _legacy_draw("normal")
+TRUSTED["numpy.random.gamma / normal (global generator)"] = "scalar draw: any value of the support (gamma >= 0); the parameters are recorded in a ghost log"
